@@ -753,7 +753,7 @@ def tag_of(case, im):
 
 def run(ck: common.Check):
     _t = [time.time()]
-    ck.prove(["GeffProps.C07"])
+    ck.prove(["GeffProps.C07", "GeffProps.C07Gen"])
     _ph = {"prove": round(time.time() - _t[0], 1)}
     _t[0] = time.time()
     mc.init_env()
